@@ -1,4 +1,4 @@
-/- GENERATED on every run by vlib/srcobj.py from the typed clang AST of /repo/src/encoder.cpp, packet.cpp, decoder.cpp, status.cpp, device_status.cpp, interface_status.cpp — do not edit. -/
+/- GENERATED on every run by vlib/srcobj.py from the typed clang AST of /repo/src/encoder.cpp, packet.cpp, payload.cpp (+ payload_type.h and the payload classes' constructors), decoder.cpp, status.cpp, device_status.cpp, interface_status.cpp — do not edit. -/
 import AsamCmp.GeneratedSrc
 import AsamCmp.Src.Obj
 set_option linter.unusedVariables false
@@ -783,5 +783,787 @@ def Status_update_obj (s : Status_St) (a_packet : OPkt) : Option (Status_St × U
   pure (s, ())
 
 def Status_untranslated : List (String × String) := [("ASAM::CMP::Status::getDeviceStatus ASAM::CMP::DeviceStatus &(std::size_t)", "reference type ASAM::CMP::DeviceStatus &"), ("ASAM::CMP::Status::getDeviceStatus const ASAM::CMP::DeviceStatus &(std::siz", "reference type const ASAM::CMP::DeviceStatus &")]
+
+/-! ## packet value mode (vlib/srcobj.py, `PvTranslator`): `PayloadType` (flat: its `uint32_t`), `Payload`, the payload
+    constructors reached from `Packet::create`, and `Packet` with its owned payload, as values -/
+
+/-- value of a `ASAM::CMP::Payload` object: one field per data member, in declaration order -/
+structure Payload_St where
+  f_payloadData : Bytes
+  f_type : Nat
+deriving Repr, Inhabited, DecidableEq
+
+/-- value of a `ASAM::CMP::Packet` object: one field per data member, in declaration order -/
+structure PacketV_St where
+  f_payload : Option Payload_St
+  f_version : Nat
+  f_deviceId : Nat
+  f_streamId : Nat
+  f_sequenceCounter : Nat
+  f_timestamp : Nat
+  f_interfaceId : Nat
+  f_vendorId : Nat
+  f_commonFlags : Nat
+  f_segmentType : Nat
+deriving Repr, Inhabited, DecidableEq
+
+/-- `ASAM::CMP::Packet::Packet` void () noexcept -/
+def Packet_ctor_default_pv  : Option (PacketV_St) := do
+  let i_payload := none
+  let i_version := 1
+  let i_deviceId := 0
+  let i_streamId := 0
+  let i_sequenceCounter := 0
+  let i_timestamp := 0
+  let i_interfaceId := 0
+  let i_vendorId := 0
+  let i_commonFlags := 0
+  let i_segmentType := 0
+  let s : PacketV_St := { f_payload := i_payload, f_version := i_version, f_deviceId := i_deviceId, f_streamId := i_streamId, f_sequenceCounter := i_sequenceCounter, f_timestamp := i_timestamp, f_interfaceId := i_interfaceId, f_vendorId := i_vendorId, f_commonFlags := i_commonFlags, f_segmentType := i_segmentType }
+  pure s
+
+/-- `ASAM::CMP::swap` void (ASAM::CMP::Packet &, ASAM::CMP::Packet &) noexcept -/
+def swap_Packet_pv (a_lhs : PacketV_St) (a_rhs : PacketV_St) : Option (PacketV_St × PacketV_St) := do
+  let t1 := a_lhs.f_version
+  let t2 := a_rhs.f_version
+  let a_lhs := { a_lhs with f_version := t2 }
+  let a_rhs := { a_rhs with f_version := t1 }
+  let t3 := a_lhs.f_deviceId
+  let t4 := a_rhs.f_deviceId
+  let a_lhs := { a_lhs with f_deviceId := t4 }
+  let a_rhs := { a_rhs with f_deviceId := t3 }
+  let t5 := a_lhs.f_streamId
+  let t6 := a_rhs.f_streamId
+  let a_lhs := { a_lhs with f_streamId := t6 }
+  let a_rhs := { a_rhs with f_streamId := t5 }
+  let t7 := a_lhs.f_sequenceCounter
+  let t8 := a_rhs.f_sequenceCounter
+  let a_lhs := { a_lhs with f_sequenceCounter := t8 }
+  let a_rhs := { a_rhs with f_sequenceCounter := t7 }
+  let t9 := a_lhs.f_timestamp
+  let t10 := a_rhs.f_timestamp
+  let a_lhs := { a_lhs with f_timestamp := t10 }
+  let a_rhs := { a_rhs with f_timestamp := t9 }
+  let t11 := a_lhs.f_interfaceId
+  let t12 := a_rhs.f_interfaceId
+  let a_lhs := { a_lhs with f_interfaceId := t12 }
+  let a_rhs := { a_rhs with f_interfaceId := t11 }
+  let t13 := a_lhs.f_vendorId
+  let t14 := a_rhs.f_vendorId
+  let a_lhs := { a_lhs with f_vendorId := t14 }
+  let a_rhs := { a_rhs with f_vendorId := t13 }
+  let t15 := a_lhs.f_commonFlags
+  let t16 := a_rhs.f_commonFlags
+  let a_lhs := { a_lhs with f_commonFlags := t16 }
+  let a_rhs := { a_rhs with f_commonFlags := t15 }
+  let t17 := a_lhs.f_segmentType
+  let t18 := a_rhs.f_segmentType
+  let a_lhs := { a_lhs with f_segmentType := t18 }
+  let a_rhs := { a_rhs with f_segmentType := t17 }
+  let t19 := a_lhs.f_payload
+  let t20 := a_rhs.f_payload
+  let a_lhs := { a_lhs with f_payload := t20 }
+  let a_rhs := { a_rhs with f_payload := t19 }
+  pure (a_lhs, a_rhs)
+
+/-- `ASAM::CMP::Packet::Packet` void (ASAM::CMP::Packet &&) noexcept -/
+def Packet_ctor_move_pv (a_other : PacketV_St) : Option (PacketV_St × PacketV_St) := do
+  let i_payload := none
+  let i_version := 1
+  let i_deviceId := 0
+  let i_streamId := 0
+  let i_sequenceCounter := 0
+  let i_timestamp := 0
+  let i_interfaceId := 0
+  let i_vendorId := 0
+  let i_commonFlags := 0
+  let i_segmentType := 0
+  let s : PacketV_St := { f_payload := i_payload, f_version := i_version, f_deviceId := i_deviceId, f_streamId := i_streamId, f_sequenceCounter := i_sequenceCounter, f_timestamp := i_timestamp, f_interfaceId := i_interfaceId, f_vendorId := i_vendorId, f_commonFlags := i_commonFlags, f_segmentType := i_segmentType }
+  let (o1, o2) ← swap_Packet_pv s a_other
+  let s := o1
+  let a_other := o2
+  pure (s, a_other)
+
+/-- `ASAM::CMP::Payload::Payload` void (const ASAM::CMP::Payload &) noexcept(false) -/
+def Payload_ctor_copy_pv (a_other : Payload_St) : Option (Payload_St) := do
+  let i_payloadData := a_other.f_payloadData
+  let i_type := a_other.f_type
+  let s : Payload_St := { f_payloadData := i_payloadData, f_type := i_type }
+  pure s
+
+/-- `ASAM::CMP::Packet::Packet` void (const ASAM::CMP::Packet &) -/
+def Packet_ctor_copy_pv (a_other : PacketV_St) : Option (PacketV_St) := do
+  let i_payload := none
+  let i_version := a_other.f_version
+  let i_deviceId := a_other.f_deviceId
+  let i_streamId := a_other.f_streamId
+  let i_sequenceCounter := a_other.f_sequenceCounter
+  let i_timestamp := a_other.f_timestamp
+  let i_interfaceId := a_other.f_interfaceId
+  let i_vendorId := a_other.f_vendorId
+  let i_commonFlags := a_other.f_commonFlags
+  let i_segmentType := a_other.f_segmentType
+  let s : PacketV_St := { f_payload := i_payload, f_version := i_version, f_deviceId := i_deviceId, f_streamId := i_streamId, f_sequenceCounter := i_sequenceCounter, f_timestamp := i_timestamp, f_interfaceId := i_interfaceId, f_vendorId := i_vendorId, f_commonFlags := i_commonFlags, f_segmentType := i_segmentType }
+  if (a_other.f_payload).isSome then
+    let d1 ← a_other.f_payload
+    let o2 ← Payload_ctor_copy_pv d1
+    let s := { s with f_payload := (some o2) }
+    pure s
+  else
+    pure s
+
+/-- `ASAM::CMP::Packet::setTimestamp` void (const uint64_t) -/
+def Packet_setTimestamp_pv (s : PacketV_St) (a_newTimestamp : Nat) : Option (PacketV_St × Unit) := do
+  let s := { s with f_timestamp := a_newTimestamp }
+  pure (s, ())
+
+/-- `ASAM::CMP::Packet::setInterfaceId` void (const uint32_t) -/
+def Packet_setInterfaceId_pv (s : PacketV_St) (a_id : Nat) : Option (PacketV_St × Unit) := do
+  let s := { s with f_interfaceId := a_id }
+  pure (s, ())
+
+/-- `ASAM::CMP::Packet::setCommonFlags` void (const uint8_t) -/
+def Packet_setCommonFlags_pv (s : PacketV_St) (a_flags : Nat) : Option (PacketV_St × Unit) := do
+  let s := { s with f_commonFlags := a_flags }
+  pure (s, ())
+
+/-- `ASAM::CMP::Packet::setVendorId` void (const uint16_t) -/
+def Packet_setVendorId_pv (s : PacketV_St) (a_id : Nat) : Option (PacketV_St × Unit) := do
+  let s := { s with f_vendorId := a_id }
+  pure (s, ())
+
+/-- `ASAM::CMP::Packet::setMessageHeader` void (const CmpHeader::MessageType, ASAM::CMP::MessageHeader) -/
+def Packet_setMessageHeader_pv (s : PacketV_St) (a_msgType : Nat) (a_messageHeader : Bytes) : Option (PacketV_St × Unit) := do
+  let t1 ← MessageHeader_getTimestamp a_messageHeader 0 
+  let (o2, _) ← Packet_setTimestamp_pv s t1
+  let s := o2
+  let sw3 := a_msgType
+  if sw3 == 1 then
+    let t4 ← MessageHeader_getInterfaceId a_messageHeader 0 
+    let (o5, _) ← Packet_setInterfaceId_pv s t4
+    let s := o5
+    let t6 ← MessageHeader_getCommonFlags a_messageHeader 0 
+    let (o7, _) ← Packet_setCommonFlags_pv s t6
+    let s := o7
+    pure (s, ())
+  else if sw3 == 3 || sw3 == 255 then
+    let t8 ← MessageHeader_getVendorId a_messageHeader 0 
+    let (o9, _) ← Packet_setVendorId_pv s t8
+    let s := o9
+    let t10 ← MessageHeader_getCommonFlags a_messageHeader 0 
+    let (o11, _) ← Packet_setCommonFlags_pv s t10
+    let s := o11
+    pure (s, ())
+  else if sw3 == 2 then
+    let t12 ← MessageHeader_getCommonFlags a_messageHeader 0 
+    let (o13, _) ← Packet_setCommonFlags_pv s t12
+    let s := o13
+    pure (s, ())
+  else
+    let t12 ← MessageHeader_getCommonFlags a_messageHeader 0 
+    let (o13, _) ← Packet_setCommonFlags_pv s t12
+    let s := o13
+    pure (s, ())
+
+/-- `ASAM::CMP::PayloadType::getType` uint32_t () const -/
+def PayloadType_getType_pv (s : Nat) : Option (Nat × Nat) := do
+  pure (s, s)
+
+/-- `ASAM::CMP::operator==` bool (const ASAM::CMP::PayloadType, const ASAM::CMP::PayloadType) noexcept -/
+def opEq_PayloadType_pv (a_lhs : Nat) (a_rhs : Nat) : Option (Bool) := do
+  let (_, t1) ← PayloadType_getType_pv a_lhs
+  let (_, t2) ← PayloadType_getType_pv a_rhs
+  pure (t1 == t2)
+
+/-- `ASAM::CMP::operator!=` bool (const ASAM::CMP::PayloadType, const ASAM::CMP::PayloadType) noexcept -/
+def opNe_PayloadType_pv (a_lhs : Nat) (a_rhs : Nat) : Option (Bool) := do
+  let t1 ← opEq_PayloadType_pv a_lhs a_rhs
+  pure (!t1)
+
+/-- `ASAM::CMP::PayloadType::PayloadType` void (uint32_t) -/
+def PayloadType_ctor_u32_pv (a_payloadType : Nat) : Option (Nat) := do
+  let i_type := a_payloadType
+  let s := i_type
+  pure s
+
+/-- `ASAM::CMP::Payload::Payload` void (const ASAM::CMP::PayloadType, const uint8_t *, const size_t) -/
+def Payload_ctor_PayloadType_ptr_u64_pv (m : Bytes) (a_type : Nat) (a_data : Nat) (a_size : Nat) : Option (Payload_St) := do
+  let i_payloadData := (zeros a_size)
+  let i_type := a_type
+  let s : Payload_St := { f_payloadData := i_payloadData, f_type := i_type }
+  let t3 ← (if (a_size != 0) then (do let o1 ← PayloadType_ctor_u32_pv 0; let t2 ← opNe_PayloadType_pv a_type o1; pure t2) else pure false)
+  if t3 then
+    let t4 ← wrBytes s.f_payloadData 0 (m.drop a_data) a_size
+    let s := { s with f_payloadData := t4 }
+    pure s
+  else
+    pure s
+
+/-- `ASAM::CMP::CanPayloadBase::CanPayloadBase` void (const ASAM::CMP::PayloadType, const uint8_t *, const size_t) -/
+def CanPayloadBase_ctor_PayloadType_ptr_u64_pv (m : Bytes) (a_type : Nat) (a_data : Nat) (a_size : Nat) : Option (Payload_St) := do
+  let o1 ← Payload_ctor_PayloadType_ptr_u64_pv m a_type a_data a_size
+  let s := o1
+  pure s
+
+/-- `ASAM::CMP::CanPayload::CanPayload` void (const uint8_t *, const size_t) -/
+def CanPayload_ctor_ptr_u64_pv (m : Bytes) (a_data : Nat) (a_size : Nat) : Option (Payload_St) := do
+  let o1 ← PayloadType_ctor_u32_pv 257
+  let o2 ← CanPayloadBase_ctor_PayloadType_ptr_u64_pv m o1 a_data a_size
+  let s := o2
+  pure s
+
+/-- `ASAM::CMP::CanFdPayload::CanFdPayload` void (const uint8_t *, const size_t) -/
+def CanFdPayload_ctor_ptr_u64_pv (m : Bytes) (a_data : Nat) (a_size : Nat) : Option (Payload_St) := do
+  let o1 ← PayloadType_ctor_u32_pv 258
+  let o2 ← CanPayloadBase_ctor_PayloadType_ptr_u64_pv m o1 a_data a_size
+  let s := o2
+  pure s
+
+/-- `ASAM::CMP::LinPayload::LinPayload` void (const uint8_t *, const size_t) -/
+def LinPayload_ctor_ptr_u64_pv (m : Bytes) (a_data : Nat) (a_size : Nat) : Option (Payload_St) := do
+  let o1 ← PayloadType_ctor_u32_pv 259
+  let o2 ← Payload_ctor_PayloadType_ptr_u64_pv m o1 a_data a_size
+  let s := o2
+  pure s
+
+/-- `ASAM::CMP::AnalogPayload::AnalogPayload` void (const uint8_t *, const size_t) -/
+def AnalogPayload_ctor_ptr_u64_pv (m : Bytes) (a_data : Nat) (a_size : Nat) : Option (Payload_St) := do
+  let o1 ← PayloadType_ctor_u32_pv 263
+  let o2 ← Payload_ctor_PayloadType_ptr_u64_pv m o1 a_data a_size
+  let s := o2
+  pure s
+
+/-- `ASAM::CMP::EthernetPayload::EthernetPayload` void (const uint8_t *, const size_t) -/
+def EthernetPayload_ctor_ptr_u64_pv (m : Bytes) (a_data : Nat) (a_size : Nat) : Option (Payload_St) := do
+  let o1 ← PayloadType_ctor_u32_pv 264
+  let o2 ← Payload_ctor_PayloadType_ptr_u64_pv m o1 a_data a_size
+  let s := o2
+  pure s
+
+/-- `ASAM::CMP::CaptureModulePayload::CaptureModulePayload` void (const uint8_t *, const size_t) -/
+def CaptureModulePayload_ctor_ptr_u64_pv (m : Bytes) (a_data : Nat) (a_size : Nat) : Option (Payload_St) := do
+  let o1 ← PayloadType_ctor_u32_pv 769
+  let o2 ← Payload_ctor_PayloadType_ptr_u64_pv m o1 a_data a_size
+  let s := o2
+  pure s
+
+/-- `ASAM::CMP::InterfacePayload::InterfacePayload` void (const uint8_t *, const size_t) -/
+def InterfacePayload_ctor_ptr_u64_pv (m : Bytes) (a_data : Nat) (a_size : Nat) : Option (Payload_St) := do
+  let o1 ← PayloadType_ctor_u32_pv 770
+  let o2 ← Payload_ctor_PayloadType_ptr_u64_pv m o1 a_data a_size
+  let s := o2
+  pure s
+
+/-- `ASAM::CMP::Packet::create` std::unique_ptr<Payload> (const ASAM::CMP::PayloadType, const uint8_t *, const size_t) -/
+def Packet_create_pv (s : PacketV_St) (m : Bytes) (a_type : Nat) (a_data : Nat) (a_size : Nat) : Option (PacketV_St × Option Payload_St) := do
+  let (_, t1) ← PayloadType_getType_pv a_type
+  let sw2 := t1
+  if sw2 == 257 then
+    let t3 ← CanPayloadBase_isValidPayload m a_data a_size
+    if t3 then
+      let o4 ← CanPayload_ctor_ptr_u64_pv m a_data a_size
+      pure (s, (some o4))
+    else
+      let o5 ← PayloadType_ctor_u32_pv 0
+      let o6 ← Payload_ctor_PayloadType_ptr_u64_pv m o5 a_data a_size
+      pure (s, (some o6))
+  else if sw2 == 258 then
+    let t7 ← CanPayloadBase_isValidPayload m a_data a_size
+    if t7 then
+      let o8 ← CanFdPayload_ctor_ptr_u64_pv m a_data a_size
+      pure (s, (some o8))
+    else
+      let o9 ← PayloadType_ctor_u32_pv 0
+      let o10 ← Payload_ctor_PayloadType_ptr_u64_pv m o9 a_data a_size
+      pure (s, (some o10))
+  else if sw2 == 259 then
+    let t11 ← LinPayload_isValidPayload m a_data a_size
+    if t11 then
+      let o12 ← LinPayload_ctor_ptr_u64_pv m a_data a_size
+      pure (s, (some o12))
+    else
+      let o13 ← PayloadType_ctor_u32_pv 0
+      let o14 ← Payload_ctor_PayloadType_ptr_u64_pv m o13 a_data a_size
+      pure (s, (some o14))
+  else if sw2 == 263 then
+    let t15 ← AnalogPayload_isValidPayload m a_data a_size
+    if t15 then
+      let o16 ← AnalogPayload_ctor_ptr_u64_pv m a_data a_size
+      pure (s, (some o16))
+    else
+      let o17 ← PayloadType_ctor_u32_pv 0
+      let o18 ← Payload_ctor_PayloadType_ptr_u64_pv m o17 a_data a_size
+      pure (s, (some o18))
+  else if sw2 == 264 then
+    let t19 ← EthernetPayload_isValidPayload m a_data a_size
+    if t19 then
+      let o20 ← EthernetPayload_ctor_ptr_u64_pv m a_data a_size
+      pure (s, (some o20))
+    else
+      let o21 ← PayloadType_ctor_u32_pv 0
+      let o22 ← Payload_ctor_PayloadType_ptr_u64_pv m o21 a_data a_size
+      pure (s, (some o22))
+  else if sw2 == 769 then
+    let t23 ← CaptureModulePayload_isValidPayload m a_data a_size
+    if t23 then
+      let o24 ← CaptureModulePayload_ctor_ptr_u64_pv m a_data a_size
+      pure (s, (some o24))
+    else
+      let o25 ← PayloadType_ctor_u32_pv 0
+      let o26 ← Payload_ctor_PayloadType_ptr_u64_pv m o25 a_data a_size
+      pure (s, (some o26))
+  else if sw2 == 770 then
+    let t27 ← InterfacePayload_isValidPayload m a_data a_size
+    if t27 then
+      let o28 ← InterfacePayload_ctor_ptr_u64_pv m a_data a_size
+      pure (s, (some o28))
+    else
+      let o29 ← PayloadType_ctor_u32_pv 0
+      let o30 ← Payload_ctor_PayloadType_ptr_u64_pv m o29 a_data a_size
+      pure (s, (some o30))
+  else
+    let o31 ← Payload_ctor_PayloadType_ptr_u64_pv m a_type a_data a_size
+    pure (s, (some o31))
+
+/-- `ASAM::CMP::PayloadType::PayloadType` void (const ASAM::CMP::PayloadType::MessageType, const uint8_t) -/
+def PayloadType_ctor_u8_u8_pv (a_msgType : Nat) (a_rawPayloadType : Nat) : Option (Nat) := do
+  let t1 ← to_underlying_u82 a_msgType
+  let t2 ← sshl 32 t1 8
+  let i_type := (t2 ||| a_rawPayloadType)
+  let s := i_type
+  pure s
+
+/-- `ASAM::CMP::Packet::Packet` void (const CmpHeader::MessageType, const uint8_t *, const size_t) -/
+def Packet_ctor_u8_ptr_u64_pv (m : Bytes) (a_msgType : Nat) (a_data : Nat) (a_size : Nat) : Option (PacketV_St) := do
+  let i_payload := none
+  let i_version := 1
+  let i_deviceId := 0
+  let i_streamId := 0
+  let i_sequenceCounter := 0
+  let i_timestamp := 0
+  let i_interfaceId := 0
+  let i_vendorId := 0
+  let i_commonFlags := 0
+  let i_segmentType := 0
+  let s : PacketV_St := { f_payload := i_payload, f_version := i_version, f_deviceId := i_deviceId, f_streamId := i_streamId, f_sequenceCounter := i_sequenceCounter, f_timestamp := i_timestamp, f_interfaceId := i_interfaceId, f_vendorId := i_vendorId, f_commonFlags := i_commonFlags, f_segmentType := i_segmentType }
+  let v_header := a_data
+  let t1 ← takeExact (m.drop v_header) 16
+  let (o2, _) ← Packet_setMessageHeader_pv s a_msgType t1
+  let s := o2
+  let t3 ← MessageHeader_getPayloadType m v_header
+  let o4 ← PayloadType_ctor_u8_u8_pv a_msgType t3
+  let t5 ← MessageHeader_getPayloadLength m v_header
+  let (o6, t7) ← Packet_create_pv s m o4 (a_data + 16) t5
+  let s := o6
+  let s := { s with f_payload := t7 }
+  pure s
+
+/-- `ASAM::CMP::Packet::getCommonFlag` bool (const ASAM::CMP::Packet::CommonFlags) const -/
+def Packet_getCommonFlag_pv (s : PacketV_St) (a_mask : Nat) : Option (PacketV_St × Bool) := do
+  pure (s, ((s.f_commonFlags &&& a_mask) != 0))
+
+/-- `ASAM::CMP::Packet::getCommonFlags` uint8_t () const -/
+def Packet_getCommonFlags_pv (s : PacketV_St) : Option (PacketV_St × Nat) := do
+  pure (s, s.f_commonFlags)
+
+/-- `ASAM::CMP::Packet::getDeviceId` uint16_t () const -/
+def Packet_getDeviceId_pv (s : PacketV_St) : Option (PacketV_St × Nat) := do
+  pure (s, s.f_deviceId)
+
+/-- `ASAM::CMP::Packet::getInterfaceId` uint32_t () const -/
+def Packet_getInterfaceId_pv (s : PacketV_St) : Option (PacketV_St × Nat) := do
+  pure (s, s.f_interfaceId)
+
+/-- `ASAM::CMP::PayloadType::getMessageType` PayloadType::MessageType () const -/
+def PayloadType_getMessageType_pv (s : Nat) : Option (Nat × Nat) := do
+  let t1 ← ushr 32 (s &&& 65280) 8
+  pure (s, (t1 % 256))
+
+/-- `ASAM::CMP::Payload::getMessageType` Payload::MessageType () const -/
+def Payload_getMessageType_pv (s : Payload_St) : Option (Payload_St × Nat) := do
+  let (_, t1) ← PayloadType_getMessageType_pv s.f_type
+  pure (s, t1)
+
+/-- `ASAM::CMP::Packet::getMessageType` CmpHeader::MessageType () const -/
+def Packet_getMessageType_pv (s : PacketV_St) : Option (PacketV_St × Nat) := do
+  let d1 ← s.f_payload
+  let (_, t2) ← Payload_getMessageType_pv d1
+  pure (s, t2)
+
+/-- `ASAM::CMP::Packet::getPayload` const ASAM::CMP::Payload &() const -/
+def Packet_getPayload_pv (s : PacketV_St) : Option (PacketV_St × Payload_St) := do
+  let d1 ← s.f_payload
+  pure (s, d1)
+
+/-- `ASAM::CMP::Payload::getLength` size_t () const -/
+def Payload_getLength_pv (s : Payload_St) : Option (Payload_St × Nat) := do
+  pure (s, (s.f_payloadData).length)
+
+/-- `ASAM::CMP::Packet::getPayloadLength` uint16_t () const -/
+def Packet_getPayloadLength_pv (s : PacketV_St) : Option (PacketV_St × Nat) := do
+  let t3 ← (if (s.f_payload).isSome then (do let d1 ← s.f_payload; let (_, t2) ← Payload_getLength_pv d1; pure (t2 % 65536)) else (do pure 0))
+  pure (s, (t3 % 65536))
+
+/-- `ASAM::CMP::PayloadType::getRawPayloadType` uint8_t () const -/
+def PayloadType_getRawPayloadType_pv (s : Nat) : Option (Nat × Nat) := do
+  pure (s, ((s &&& 255) % 256))
+
+/-- `ASAM::CMP::Payload::getRawPayloadType` uint8_t () const -/
+def Payload_getRawPayloadType_pv (s : Payload_St) : Option (Payload_St × Nat) := do
+  let (_, t1) ← PayloadType_getRawPayloadType_pv s.f_type
+  pure (s, t1)
+
+/-- `ASAM::CMP::Packet::getPayloadType` uint8_t () const -/
+def Packet_getPayloadType_pv (s : PacketV_St) : Option (PacketV_St × Nat) := do
+  let d1 ← s.f_payload
+  let (_, t2) ← Payload_getRawPayloadType_pv d1
+  pure (s, t2)
+
+/-- `ASAM::CMP::Packet::getVersion` uint8_t () const -/
+def Packet_getVersion_pv (s : PacketV_St) : Option (PacketV_St × Nat) := do
+  pure (s, s.f_version)
+
+/-- `ASAM::CMP::Packet::getStreamId` uint8_t () const -/
+def Packet_getStreamId_pv (s : PacketV_St) : Option (PacketV_St × Nat) := do
+  pure (s, s.f_streamId)
+
+/-- `ASAM::CMP::Packet::getSequenceCounter` uint16_t () const -/
+def Packet_getSequenceCounter_pv (s : PacketV_St) : Option (PacketV_St × Nat) := do
+  pure (s, s.f_sequenceCounter)
+
+/-- `ASAM::CMP::Packet::getRawCmpHeader` void (void *) const -/
+def Packet_getRawCmpHeader_pv (s : PacketV_St) : Option (PacketV_St × Bytes) := do
+  let out_ := ([] : Bytes)
+  let v_header := ([1, 0, 0, 0, 0, 0, 0, 0] : Bytes)
+  let (_, t1) ← Packet_getVersion_pv s
+  let v_header ← CmpHeader_setVersion v_header 0 t1
+  let (_, t2) ← Packet_getDeviceId_pv s
+  let v_header ← CmpHeader_setDeviceId v_header 0 t2
+  let (_, t3) ← Packet_getMessageType_pv s
+  let v_header ← CmpHeader_setMessageType v_header 0 t3
+  let (_, t4) ← Packet_getStreamId_pv s
+  let v_header ← CmpHeader_setStreamId v_header 0 t4
+  let (_, t5) ← Packet_getSequenceCounter_pv s
+  let v_header ← CmpHeader_setSequenceCounter v_header 0 t5
+  let out_ ← takeExact v_header 8
+  pure (s, out_)
+
+/-- `ASAM::CMP::Packet::getTimestamp` uint64_t () const -/
+def Packet_getTimestamp_pv (s : PacketV_St) : Option (PacketV_St × Nat) := do
+  pure (s, s.f_timestamp)
+
+/-- `ASAM::CMP::Packet::getVendorId` uint16_t () const -/
+def Packet_getVendorId_pv (s : PacketV_St) : Option (PacketV_St × Nat) := do
+  pure (s, s.f_vendorId)
+
+/-- `ASAM::CMP::Packet::getRawMessageHeader` void (void *) const -/
+def Packet_getRawMessageHeader_pv (s : PacketV_St) : Option (PacketV_St × Bytes) := do
+  let out_ := ([] : Bytes)
+  let v_header := ([0, 0, 0, 0, 0, 0, 0, 0, 0, 0, 0, 0, 0, 0, 0, 0] : Bytes)
+  let (_, t1) ← Packet_getTimestamp_pv s
+  let v_header ← MessageHeader_setTimestamp v_header 0 t1
+  let (_, t2) ← Packet_getMessageType_pv s
+  let v_messageType := t2
+  let sw3 := v_messageType
+  if sw3 == 1 then
+    let (_, t4) ← Packet_getInterfaceId_pv s
+    let v_header ← MessageHeader_setInterfaceId v_header 0 t4
+    let (_, t5) ← Packet_getCommonFlags_pv s
+    let v_header ← MessageHeader_setCommonFlags v_header 0 t5
+    let (_, t6) ← Packet_getPayloadType_pv s
+    let v_header ← MessageHeader_setPayloadType v_header 0 t6
+    let (_, t7) ← Packet_getPayloadLength_pv s
+    let v_header ← MessageHeader_setPayloadLength v_header 0 t7
+    let out_ ← takeExact v_header 16
+    pure (s, out_)
+  else if sw3 == 3 || sw3 == 255 then
+    let (_, t8) ← Packet_getVendorId_pv s
+    let v_header ← MessageHeader_setVendorId v_header 0 t8
+    let (_, t9) ← Packet_getCommonFlags_pv s
+    let v_header ← MessageHeader_setCommonFlags v_header 0 t9
+    let (_, t10) ← Packet_getPayloadType_pv s
+    let v_header ← MessageHeader_setPayloadType v_header 0 t10
+    let (_, t11) ← Packet_getPayloadLength_pv s
+    let v_header ← MessageHeader_setPayloadLength v_header 0 t11
+    let out_ ← takeExact v_header 16
+    pure (s, out_)
+  else if sw3 == 2 then
+    let (_, t12) ← Packet_getCommonFlags_pv s
+    let v_header ← MessageHeader_setCommonFlags v_header 0 t12
+    let (_, t13) ← Packet_getPayloadType_pv s
+    let v_header ← MessageHeader_setPayloadType v_header 0 t13
+    let (_, t14) ← Packet_getPayloadLength_pv s
+    let v_header ← MessageHeader_setPayloadLength v_header 0 t14
+    let out_ ← takeExact v_header 16
+    pure (s, out_)
+  else
+    let (_, t12) ← Packet_getCommonFlags_pv s
+    let v_header ← MessageHeader_setCommonFlags v_header 0 t12
+    let (_, t13) ← Packet_getPayloadType_pv s
+    let v_header ← MessageHeader_setPayloadType v_header 0 t13
+    let (_, t14) ← Packet_getPayloadLength_pv s
+    let v_header ← MessageHeader_setPayloadLength v_header 0 t14
+    let out_ ← takeExact v_header 16
+    pure (s, out_)
+
+/-- `ASAM::CMP::Packet::getSegmentType` Packet::SegmentType () const -/
+def Packet_getSegmentType_pv (s : PacketV_St) : Option (PacketV_St × Nat) := do
+  pure (s, s.f_segmentType)
+
+/-- `ASAM::CMP::PayloadType::isValid` bool () const -/
+def PayloadType_isValid_pv (s : Nat) : Option (Nat × Bool) := do
+  pure (s, (((s &&& 255) != 0) && ((s &&& 65280) != 0)))
+
+/-- `ASAM::CMP::Payload::isValid` bool () const -/
+def Payload_isValid_pv (s : Payload_St) : Option (Payload_St × Bool) := do
+  let (_, t1) ← PayloadType_isValid_pv s.f_type
+  pure (s, t1)
+
+/-- `ASAM::CMP::Packet::isValid` bool () const -/
+def Packet_isValid_pv (s : PacketV_St) : Option (PacketV_St × Bool) := do
+  let t3 ← (if (s.f_payload).isSome then (do let d1 ← s.f_payload; let (_, t2) ← Payload_isValid_pv d1; pure t2) else (do pure false))
+  pure (s, t3)
+
+/-- `ASAM::CMP::Packet::isValidPacket` bool (const uint8_t *, const size_t) -/
+def Packet_isValidPacket_pv (m : Bytes) (a_data : Nat) (a_size : Nat) : Option (Bool) := do
+  let v_header := a_data
+  let t2 ← (if (decide (a_size ≥ 16)) then (do let t1 ← MessageHeader_getPayloadLength m v_header; pure (decide (t1 ≤ (usub 64 a_size 16)))) else pure false)
+  let t4 ← (if t2 then (do let t3 ← MessageHeader_getCommonFlag m v_header 64; pure (!t3)) else pure false)
+  let t6 ← (if t4 then (do let t5 ← MessageHeader_getPayloadType m v_header; pure (t5 != 0)) else pure false)
+  pure t6
+
+/-- `ASAM::CMP::Packet::operator=` ASAM::CMP::Packet &(ASAM::CMP::Packet &&) noexcept -/
+def Packet_opAssign_move_pv (s : PacketV_St) (a_other : PacketV_St) : Option (PacketV_St × Unit × PacketV_St) := do
+  let (o1, o2) ← swap_Packet_pv s a_other
+  let s := o1
+  let a_other := o2
+  pure (s, (), a_other)
+
+/-- `ASAM::CMP::Packet::operator=` ASAM::CMP::Packet &(const ASAM::CMP::Packet &) -/
+def Packet_opAssign_copy_pv (s : PacketV_St) (a_other : PacketV_St) : Option (PacketV_St × Unit) := do
+  let g_sameObject := false
+  if (!g_sameObject) then
+    let o1 ← Packet_ctor_copy_pv a_other
+    let v_tmp := o1
+    let (o2, o3) ← swap_Packet_pv s v_tmp
+    let s := o2
+    let v_tmp := o3
+    pure (s, ())
+  else
+    pure (s, ())
+
+/-- `ASAM::CMP::Packet::operator=` ASAM::CMP::Packet &(const ASAM::CMP::Packet &) -/
+def Packet_opAssign_copy_self_pv (s : PacketV_St) : Option (PacketV_St × Unit) := do
+  let g_sameObject := true
+  if (!g_sameObject) then
+    let o1 ← Packet_ctor_copy_pv s
+    let v_tmp := o1
+    let (o2, o3) ← swap_Packet_pv s v_tmp
+    let s := o2
+    let v_tmp := o3
+    pure (s, ())
+  else
+    pure (s, ())
+
+/-- `ASAM::CMP::Packet::setCommonFlag` void (const ASAM::CMP::Packet::CommonFlags, const bool) -/
+def Packet_setCommonFlag_pv (s : PacketV_St) (a_mask : Nat) (a_value : Bool) : Option (PacketV_St × Unit) := do
+  let s := { s with f_commonFlags := ((if a_value then (s.f_commonFlags ||| a_mask) else (s.f_commonFlags &&& (bnot 32 a_mask))) % 256) }
+  pure (s, ())
+
+/-- `ASAM::CMP::Packet::setDeviceId` void (const uint16_t) -/
+def Packet_setDeviceId_pv (s : PacketV_St) (a_value : Nat) : Option (PacketV_St × Unit) := do
+  let s := { s with f_deviceId := a_value }
+  pure (s, ())
+
+/-- `ASAM::CMP::Packet::setPayload` void (const ASAM::CMP::Payload &) -/
+def Packet_setPayload_pv (s : PacketV_St) (a_newPayload : Payload_St) : Option (PacketV_St × Unit) := do
+  let o1 ← Payload_ctor_copy_pv a_newPayload
+  let s := { s with f_payload := (some o1) }
+  pure (s, ())
+
+/-- `ASAM::CMP::Packet::setSegmentType` void (const ASAM::CMP::Packet::SegmentType) -/
+def Packet_setSegmentType_pv (s : PacketV_St) (a_type : Nat) : Option (PacketV_St × Unit) := do
+  let s := { s with f_segmentType := a_type }
+  pure (s, ())
+
+/-- `ASAM::CMP::Packet::setSequenceCounter` void (uint16_t) -/
+def Packet_setSequenceCounter_pv (s : PacketV_St) (a_counter : Nat) : Option (PacketV_St × Unit) := do
+  let s := { s with f_sequenceCounter := a_counter }
+  pure (s, ())
+
+/-- `ASAM::CMP::Packet::setStreamId` void (const uint8_t) -/
+def Packet_setStreamId_pv (s : PacketV_St) (a_value : Nat) : Option (PacketV_St × Unit) := do
+  let s := { s with f_streamId := a_value }
+  pure (s, ())
+
+/-- `ASAM::CMP::Packet::setVersion` void (const uint8_t) -/
+def Packet_setVersion_pv (s : PacketV_St) (a_value : Nat) : Option (PacketV_St × Unit) := do
+  let s := { s with f_version := a_value }
+  pure (s, ())
+
+/-- `ASAM::CMP::Payload::Payload` void (const ASAM::CMP::PayloadType, const size_t) -/
+def Payload_ctor_PayloadType_u64_pv (a_type : Nat) (a_size : Nat) : Option (Payload_St) := do
+  let i_payloadData := (zeros a_size)
+  let i_type := a_type
+  let s : Payload_St := { f_payloadData := i_payloadData, f_type := i_type }
+  pure s
+
+/-- `ASAM::CMP::Payload::getType` ASAM::CMP::PayloadType () const -/
+def Payload_getType_pv (s : Payload_St) : Option (Payload_St × Nat) := do
+  pure (s, s.f_type)
+
+/-- `ASAM::CMP::PayloadType::setMessageType` void (const PayloadType::MessageType) -/
+def PayloadType_setMessageType_pv (s : Nat) (a_newType : Nat) : Option (Nat × Unit) := do
+  let s := (s &&& (bnot 32 65280))
+  let t1 ← to_underlying_u82 a_newType
+  let t2 ← sshl 32 t1 8
+  let s := (s ||| t2)
+  pure (s, ())
+
+/-- `ASAM::CMP::Payload::setMessageType` void (const ASAM::CMP::Payload::MessageType) -/
+def Payload_setMessageType_pv (s : Payload_St) (a_newType : Nat) : Option (Payload_St × Unit) := do
+  let (o1, _) ← PayloadType_setMessageType_pv s.f_type a_newType
+  let s := { s with f_type := o1 }
+  pure (s, ())
+
+/-- `ASAM::CMP::PayloadType::setRawPayloadType` void (const uint8_t) -/
+def PayloadType_setRawPayloadType_pv (s : Nat) (a_newType : Nat) : Option (Nat × Unit) := do
+  let s := (s &&& (bnot 32 255))
+  let s := (s ||| a_newType)
+  pure (s, ())
+
+/-- `ASAM::CMP::Payload::setRawPayloadType` void (const uint8_t) -/
+def Payload_setRawPayloadType_pv (s : Payload_St) (a_newType : Nat) : Option (Payload_St × Unit) := do
+  let (o1, _) ← PayloadType_setRawPayloadType_pv s.f_type a_newType
+  let s := { s with f_type := o1 }
+  pure (s, ())
+
+/-- `ASAM::CMP::Payload::setType` void (const ASAM::CMP::PayloadType) -/
+def Payload_setType_pv (s : Payload_St) (a_newType : Nat) : Option (Payload_St × Unit) := do
+  let s := { s with f_type := a_newType }
+  pure (s, ())
+
+/-- `ASAM::CMP::PayloadType::setType` void (const uint32_t) -/
+def PayloadType_setType_pv (s : Nat) (a_newType : Nat) : Option (Nat × Unit) := do
+  let s := a_newType
+  pure (s, ())
+
+def opEq_Payload_pv_loop1 (fuel : Nat) (g_samePtr : Bool) (a_lhs : Payload_St) (a_rhs : Payload_St) (v_lhsRaw_off : Nat) (v_rhsRaw_off : Nat) (v_i : Nat) : Option (Option Bool × Nat) :=
+  match fuel with
+  | 0 => none
+  | fuel + 1 => do
+    let (_, t6) ← Payload_getLength_pv a_lhs
+    if (decide (v_i < t6)) then
+      let t7 ← rd a_lhs.f_payloadData (v_lhsRaw_off + v_i) 1
+      let t8 ← rd a_rhs.f_payloadData (v_rhsRaw_off + v_i) 1
+      if (t7 != t8) then
+        pure ((some false), v_i)
+      else
+        let v_i := (uadd 64 v_i 1)
+        opEq_Payload_pv_loop1 fuel g_samePtr a_lhs a_rhs v_lhsRaw_off v_rhsRaw_off v_i
+    else
+      pure (none, v_i)
+
+/-- `ASAM::CMP::operator==` bool (const ASAM::CMP::Payload &, const ASAM::CMP::Payload &) noexcept -/
+def opEq_Payload_pv (fuel : Nat) (g_samePtr : Bool) (a_lhs : Payload_St) (a_rhs : Payload_St) : Option (Bool) := do
+  let (_, t1) ← Payload_getType_pv a_lhs
+  let (_, t2) ← Payload_getType_pv a_rhs
+  let t3 ← opNe_PayloadType_pv t1 t2
+  if t3 then
+    pure false
+  else
+    let (_, t4) ← Payload_getLength_pv a_lhs
+    let (_, t5) ← Payload_getLength_pv a_rhs
+    if (t4 != t5) then
+      pure false
+    else
+      let v_lhsRaw_off := 0
+      let v_rhsRaw_off := 0
+      if g_samePtr then
+        pure true
+      else
+        let v_i := 0
+        let (r_, v_i) ← opEq_Payload_pv_loop1 fuel g_samePtr a_lhs a_rhs v_lhsRaw_off v_rhsRaw_off v_i
+        match r_ with
+        | some r_ => pure r_
+        | none =>
+          pure true
+
+/-- `ASAM::CMP::operator==` bool (const ASAM::CMP::Packet &, const ASAM::CMP::Packet &) noexcept -/
+def opEq_Packet_pv (fuel : Nat) (g_samePtr : Bool) (a_lhs : PacketV_St) (a_rhs : PacketV_St) : Option (Bool) := do
+  let (_, t1) ← Packet_getVersion_pv a_lhs
+  let (_, t2) ← Packet_getVersion_pv a_rhs
+  if (t1 != t2) then
+    pure false
+  else
+    let (_, t3) ← Packet_getDeviceId_pv a_lhs
+    let (_, t4) ← Packet_getDeviceId_pv a_rhs
+    if (t3 != t4) then
+      pure false
+    else
+      let (_, t5) ← Packet_getStreamId_pv a_lhs
+      let (_, t6) ← Packet_getStreamId_pv a_rhs
+      if (t5 != t6) then
+        pure false
+      else
+        let (_, t7) ← Packet_getSequenceCounter_pv a_lhs
+        let (_, t8) ← Packet_getSequenceCounter_pv a_rhs
+        if (t7 != t8) then
+          pure false
+        else
+          let (_, t9) ← Packet_getTimestamp_pv a_lhs
+          let (_, t10) ← Packet_getTimestamp_pv a_rhs
+          if (t9 != t10) then
+            pure false
+          else
+            let (_, t11) ← Packet_getInterfaceId_pv a_lhs
+            let (_, t12) ← Packet_getInterfaceId_pv a_rhs
+            if (t11 != t12) then
+              pure false
+            else
+              let (_, t13) ← Packet_getVendorId_pv a_lhs
+              let (_, t14) ← Packet_getVendorId_pv a_rhs
+              if (t13 != t14) then
+                pure false
+              else
+                let (_, t15) ← Packet_getCommonFlags_pv a_lhs
+                let (_, t16) ← Packet_getCommonFlags_pv a_rhs
+                if (t15 != t16) then
+                  pure false
+                else
+                  let (_, t17) ← Packet_getSegmentType_pv a_lhs
+                  let (_, t18) ← Packet_getSegmentType_pv a_rhs
+                  if (t17 != t18) then
+                    pure false
+                  else
+                    let t21 ← (if (a_lhs.f_payload).isSome then (do let d19 ← a_lhs.f_payload; let (_, t20) ← Payload_getLength_pv d19; pure t20) else (do pure 0))
+                    let v_lhsLength := t21
+                    let t24 ← (if (a_rhs.f_payload).isSome then (do let d22 ← a_rhs.f_payload; let (_, t23) ← Payload_getLength_pv d22; pure t23) else (do pure 0))
+                    let v_rhsLength := t24
+                    if ((v_lhsLength == v_rhsLength) && (decide (v_lhsLength > 0))) then
+                      let (_, t25) ← Packet_getPayload_pv a_lhs
+                      let (_, t26) ← Packet_getPayload_pv a_rhs
+                      let t27 ← opEq_Payload_pv fuel g_samePtr t25 t26
+                      pure t27
+                    else
+                      pure (v_lhsLength == v_rhsLength)
+
+/-- `ASAM::CMP::operator!=` bool (const ASAM::CMP::Packet &, const ASAM::CMP::Packet &) noexcept -/
+def opNe_Packet_pv (fuel : Nat) (g_samePtr : Bool) (a_lhs : PacketV_St) (a_rhs : PacketV_St) : Option (Bool) := do
+  let t1 ← opEq_Packet_pv fuel g_samePtr a_lhs a_rhs
+  pure (!t1)
+
+/-- functions with a body of the value-mode classes that are not translated (or deliberately not generated), with the reason -/
+def PacketValue_untranslated : List (String × String) := [
+  ("ASAM::CMP::Packet::getPayload ASAM::CMP::Payload &()", "returns a mutable reference into the object"),
+  ("ASAM::CMP::Packet::operator= ASAM::CMP::Packet &(ASAM::CMP::Packet &&) noexcept [two of its object arguments are the same object]", "not generated: `Packet_opAssign_move_pv` is for DISTINCT objects (no address comparison in the body to derive a `_self` variant from)"),
+  ("ASAM::CMP::Payload::getRawPayload const uint8_t *() const", "returns a pointer (used through its provenance at the call sites)"),
+  ("ASAM::CMP::Payload::setData void (const uint8_t *, const size_t)", "template"),
+  ("ASAM::CMP::PayloadType::PayloadType void (const ASAM::CMP::PayloadType &) noexcept", "implicit copy / assignment of a single-scalar class: the value itself (no function generated)"),
+  ("ASAM::CMP::PayloadType::operator= ASAM::CMP::PayloadType &(const ASAM::CMP::PayloadType &) noexcept", "implicit copy / assignment of a single-scalar class: the value itself (no function generated)"),
+  ("ASAM::CMP::swap void (ASAM::CMP::Packet &, ASAM::CMP::Packet &) noexcept [two of its object arguments are the same object]", "not generated: `swap_Packet_pv` is for DISTINCT objects (no address comparison in the body to derive a `_self` variant from)")
+]
+
+def PacketValue_translated : List String := ["Packet_ctor_default_pv", "swap_Packet_pv", "Packet_ctor_move_pv", "Payload_ctor_copy_pv", "Packet_ctor_copy_pv", "Packet_setTimestamp_pv", "Packet_setInterfaceId_pv", "Packet_setCommonFlags_pv", "Packet_setVendorId_pv", "Packet_setMessageHeader_pv", "PayloadType_getType_pv", "opEq_PayloadType_pv", "opNe_PayloadType_pv", "PayloadType_ctor_u32_pv", "Payload_ctor_PayloadType_ptr_u64_pv", "CanPayloadBase_ctor_PayloadType_ptr_u64_pv", "CanPayload_ctor_ptr_u64_pv", "CanFdPayload_ctor_ptr_u64_pv", "LinPayload_ctor_ptr_u64_pv", "AnalogPayload_ctor_ptr_u64_pv", "EthernetPayload_ctor_ptr_u64_pv", "CaptureModulePayload_ctor_ptr_u64_pv", "InterfacePayload_ctor_ptr_u64_pv", "Packet_create_pv", "PayloadType_ctor_u8_u8_pv", "Packet_ctor_u8_ptr_u64_pv", "Packet_getCommonFlag_pv", "Packet_getCommonFlags_pv", "Packet_getDeviceId_pv", "Packet_getInterfaceId_pv", "PayloadType_getMessageType_pv", "Payload_getMessageType_pv", "Packet_getMessageType_pv", "Packet_getPayload_pv", "Payload_getLength_pv", "Packet_getPayloadLength_pv", "PayloadType_getRawPayloadType_pv", "Payload_getRawPayloadType_pv", "Packet_getPayloadType_pv", "Packet_getVersion_pv", "Packet_getStreamId_pv", "Packet_getSequenceCounter_pv", "Packet_getRawCmpHeader_pv", "Packet_getTimestamp_pv", "Packet_getVendorId_pv", "Packet_getRawMessageHeader_pv", "Packet_getSegmentType_pv", "PayloadType_isValid_pv", "Payload_isValid_pv", "Packet_isValid_pv", "Packet_isValidPacket_pv", "Packet_opAssign_move_pv", "Packet_opAssign_copy_pv", "Packet_opAssign_copy_self_pv", "Packet_setCommonFlag_pv", "Packet_setDeviceId_pv", "Packet_setPayload_pv", "Packet_setSegmentType_pv", "Packet_setSequenceCounter_pv", "Packet_setStreamId_pv", "Packet_setVersion_pv", "Payload_ctor_PayloadType_u64_pv", "Payload_getType_pv", "PayloadType_setMessageType_pv", "Payload_setMessageType_pv", "PayloadType_setRawPayloadType_pv", "Payload_setRawPayloadType_pv", "Payload_setType_pv", "PayloadType_setType_pv", "opEq_Payload_pv", "opEq_Packet_pv", "opNe_Packet_pv"]
 
 end AsamCmp.SrcGen
